@@ -4,24 +4,29 @@ gen_c15.py — translator part for C15 (table update / delete):  Gen/Dml.lean
 Extracted from /repo's working tree with Python `ast` (sqlframe is never imported):
 
   sqlframe/base/mixins/table_mixins.py
-      _BaseTableMixins._ensure_where_condition      -> defaultPred, predStringParsed, predListAnd,
+      _BaseTableMixins._ensure_where_condition      -> defaultPred, predStringParsed, predDialect (which dialect
+                                                       reads a SQL-string predicate), predListAnd,
                                                        predMatches / predTo / predElseRaises, predAliasStripped
       UpdateSupportMixin._ensure_and_normalize_update_set -> rhsMatches / rhsTo / rhsElseRaises, keyIsBareName
       UpdateSupportMixin.update / DeleteSupportMixin.delete -> updateTarget / deleteTarget, *UsesCondition, *BuildExecutes
   sqlframe/base/table.py  LazyExpression              -> lazyCtorExecutes, lazyExecuteRuns
+  sqlframe/base/session.py / sqlframe/duckdb/session.py  Builder.DEFAULT_INPUT_DIALECT / DEFAULT_OUTPUT_DIALECT
+                                                      -> sessionInputDefault, sessionOutputDefault
 
 Column references are classified by their table qualifier:
   none  : no qualifier (`F.col('k')`)
   cte   : `self.expression.args["from"].this.alias_or_name`  — the name of the CTE `ensure_cte` wrapped the
           table in; what `table['k']` carries after normalisation
   phys  : `self.expression.ctes[0].this.args["from"].this.alias_or_name` — the physical table
+  sub   : the table a subquery inside the predicate selects from (`o.k` inside `… IN (SELECT … FROM o …)`);
+          no loop of the builder can name it, so it is never re-targeted
 """
 from __future__ import annotations
 
 import ast
 import typing as t
 
-from translate import HEADER, Untranslatable, find_class, find_func, parse
+from translate import HEADER, Untranslatable, find_class, find_func, lean_str, parse
 
 OB = "Gen.Dml"
 CTE = "self.expression.args['from'].this.alias_or_name"
@@ -89,10 +94,94 @@ def _loop(loop: ast.For, env: t.Dict[str, str], ob: str) -> t.Tuple[t.Dict[str, 
     return matches, to, else_raises
 
 
+# sqlglot dialect names the model has lexical facts for (Impl/C15Dml.lean `lexOf`); any other name is untranslatable
+KNOWN_DIALECTS = ["", "spark", "spark2", "databricks", "hive", "duckdb", "postgres", "mysql", "bigquery", "snowflake", "redshift", "tsql", "sqlite", "trino", "presto", "clickhouse", "oracle", "doris", "starrocks"]
+PARSERS = ("sqlglot.parse_one", "parse_one", "sqlglot.maybe_parse", "maybe_parse", "exp.maybe_parse", "exp.condition")
+
+
+def _dialect_of(v: ast.expr, ob: str) -> str:
+    s = _u(v)
+    if s == "self.session.input_dialect":
+        return "Dialect.sessionInput"
+    if s == "self.session.output_dialect":
+        return "Dialect.sessionOutput"
+    if isinstance(v, ast.Constant) and v.value is None:
+        return "Dialect.generic"
+    if isinstance(v, ast.Constant) and isinstance(v.value, str):
+        name = v.value.lower()
+        if name not in KNOWN_DIALECTS:
+            raise Untranslatable(ob, f"a string predicate is parsed with the unknown dialect {v.value!r}")
+        return "Dialect.generic" if name == "" else f'Dialect.named {lean_str(name)}'
+    raise Untranslatable(ob, f"a string predicate is parsed with the dialect {s!r}")
+
+
+def _parse_call(body: t.Sequence[ast.stmt], ob: str) -> str:
+    """the body of `if isinstance(where, str):` must be exactly `where = <parser>(where[, dialect=<d>])`;
+    returns the Lean term of the dialect that reads the text (no dialect argument: sqlglot's generic dialect)"""
+    if len(body) != 1 or not (isinstance(body[0], ast.Assign) and len(body[0].targets) == 1 and _u(body[0].targets[0]) == "where"):
+        raise Untranslatable(ob, "unsupported handling of a string predicate (not a single `where = …`)")
+    call = body[0].value
+    if not (isinstance(call, ast.Call) and _u(call.func) in PARSERS):
+        raise Untranslatable(ob, f"a string predicate is read by {_u(call)[:60]!r}")
+    if len(call.args) < 1 or _u(call.args[0]) != "where" or len(call.args) > 2:
+        raise Untranslatable(ob, f"unsupported arguments of the parser call {_u(call)[:60]!r}")
+    f = _u(call.func)
+    dialect = None
+    if len(call.args) == 2:
+        # second positional parameter: parse_one(sql, read) ; maybe_parse(sql, into) ; condition(expr, dialect)
+        if f.endswith("parse_one") or f == "exp.condition":
+            dialect = _dialect_of(call.args[1], ob)
+        else:
+            raise Untranslatable(ob, f"unsupported positional argument in {_u(call)[:60]!r}")
+    for kw in call.keywords:
+        if kw.arg in ("dialect", "read") and dialect is None and (kw.arg == "dialect" or f.endswith("parse_one")):
+            dialect = _dialect_of(kw.value, ob)
+        else:
+            raise Untranslatable(ob, f"unsupported keyword {kw.arg!r} in the parser call")
+    return dialect or "Dialect.generic"
+
+
+def _gen_session_dialects(repo: str) -> t.List[str]:
+    """Builder.DEFAULT_INPUT_DIALECT / DEFAULT_OUTPUT_DIALECT of the base session, overridden by the DuckDB session's Builder"""
+    ob = OB + ".sessionDialects"
+
+    def consts(cls: ast.ClassDef) -> t.Dict[str, str]:
+        b = next((n for n in cls.body if isinstance(n, ast.ClassDef) and n.name == "Builder"), None)
+        out: t.Dict[str, str] = {}
+        if b is None:
+            return out
+        for st in b.body:
+            if isinstance(st, ast.Assign) and len(st.targets) == 1 and isinstance(st.targets[0], ast.Name) and st.targets[0].id in ("DEFAULT_INPUT_DIALECT", "DEFAULT_OUTPUT_DIALECT"):
+                if not (isinstance(st.value, ast.Constant) and isinstance(st.value.value, str)):
+                    raise Untranslatable(ob, f"{st.targets[0].id} is {_u(st.value)!r}")
+                out[st.targets[0].id] = st.value.value.lower()
+        return out
+
+    base = consts(find_class(parse(repo, "sqlframe/base/session.py"), "_BaseSession"))
+    duck = consts(find_class(parse(repo, "sqlframe/duckdb/session.py"), "DuckDBSession"))
+    vals = dict(base, **duck)
+    for k in ("DEFAULT_INPUT_DIALECT", "DEFAULT_OUTPUT_DIALECT"):
+        if k not in vals:
+            raise Untranslatable(ob, f"{k} not found")
+        if vals[k] not in KNOWN_DIALECTS:
+            raise Untranslatable(ob, f"{k} is the unknown dialect {vals[k]!r}")
+    # the builder must hand the defaults to the session unchanged
+    bcls = next(n for n in find_class(parse(repo, "sqlframe/base/session.py"), "_BaseSession").body if isinstance(n, ast.ClassDef) and n.name == "Builder")
+    init = _u(find_func(bcls.body, "__init__"))
+    if "self.input_dialect = self.DEFAULT_INPUT_DIALECT" not in init or "self.output_dialect = self.DEFAULT_OUTPUT_DIALECT" not in init:
+        raise Untranslatable(ob, "Builder.__init__ does not start from the DEFAULT_* dialects")
+    return [
+        "/-- the dialect a DuckDB session reads SQL text in unless configured otherwise (Builder.DEFAULT_INPUT_DIALECT) -/",
+        f"def sessionInputDefault : String := {lean_str(vals['DEFAULT_INPUT_DIALECT'])}",
+        f"def sessionOutputDefault : String := {lean_str(vals['DEFAULT_OUTPUT_DIALECT'])}",
+    ]
+
+
 def _emit_match(name: str, doc: str, matches: t.Dict[str, bool]) -> t.List[str]:
     out = [f"/-- {doc} -/", f"def {name} : Qual → Bool"]
     for q in ("none", "cte", "phys"):
         out.append(f"  | .{q} => {str(matches[q]).lower()}")
+    out.append("  | .sub => false")
     out.append("  | .other => false")
     return out
 
@@ -104,13 +193,14 @@ def _gen_where(cls: ast.ClassDef) -> t.List[str]:
     env: t.Dict[str, str] = {}
     default = None
     parsed = False
+    dialect = None
     list_and = False
     loop_res = None
     alias_stripped = False
     returned = False
 
     def else_branch(stmts: t.Sequence[ast.stmt]) -> None:
-        nonlocal parsed, list_and, loop_res, alias_stripped
+        nonlocal parsed, list_and, loop_res, alias_stripped, dialect
         seen_norm = False
         seen_cond = False
         for st in stmts:
@@ -118,12 +208,8 @@ def _gen_where(cls: ast.ClassDef) -> t.List[str]:
             if isinstance(st, ast.If) and _u(st.test) == "isinstance(where, str)":
                 if seen_norm or st.orelse:
                     raise Untranslatable(ob, "string branch after normalisation")
-                if any(isinstance(n, ast.Call) and _u(n.func).endswith("parse_one") for n in ast.walk(st)) and any(
-                    isinstance(b, ast.Assign) and _u(b.targets[0]) == "where" for b in st.body
-                ):
-                    parsed = True
-                else:
-                    raise Untranslatable(ob, "unsupported handling of a string predicate")
+                dialect = _parse_call(_strip_doc(st.body), ob)
+                parsed = True
             elif s == "condition_list = self._ensure_and_normalize_cols(where, self.expression)":
                 seen_norm = True
             elif isinstance(st, ast.If) and _u(st.test) == "len(condition_list) > 1":
@@ -180,6 +266,8 @@ def _gen_where(cls: ast.ClassDef) -> t.List[str]:
     out.append(f"def defaultPred : Bool := {str(default).lower()}")
     out.append("/-- a `str` predicate is parsed as SQL (`isinstance(where, str)` … `parse_one`) -/")
     out.append(f"def predStringParsed : Bool := {str(parsed).lower()}")
+    out.append("/-- the dialect whose lexer / parser reads a `str` predicate -/")
+    out.append(f"def predDialect : Dialect := {dialect or 'Dialect.generic'}")
     out.append("/-- a list of predicates is folded with `&` -/")
     out.append(f"def predListAnd : Bool := {str(list_and).lower()}")
     out += _emit_match("predMatches", "qualifiers the predicate loop re-targets", matches)
@@ -342,8 +430,19 @@ def gen_dml(repo: str) -> str:
     out.append("  | none    -- unqualified: F.col('k')")
     out.append("  | cte     -- the CTE ensure_cte wrapped the table in: table['k']")
     out.append("  | phys    -- the physical table")
+    out.append("  | sub     -- the table of an enclosing subquery's FROM")
     out.append("  | other")
     out.append("  deriving DecidableEq, Repr")
+    out.append("")
+    out.append("/-- which sqlglot dialect reads a piece of SQL text -/")
+    out.append("inductive Dialect")
+    out.append("  | sessionInput            -- self.session.input_dialect")
+    out.append("  | sessionOutput           -- self.session.output_dialect")
+    out.append("  | generic                 -- no dialect argument: sqlglot's default dialect")
+    out.append("  | named (s : String)      -- a constant dialect name")
+    out.append("  deriving DecidableEq, Repr")
+    out.append("")
+    out += _gen_session_dialects(repo)
     out.append("")
     out += _gen_where(base)
     out.append("")
